@@ -1,14 +1,24 @@
 """Fail-closed translator for property C06: the calibration tables of the spin-chain compiler and model
   compiler/spinchaincompiler.py, compiler/gatecompiler.py (gate -> method map, idle), device/spinchain.py
-  (control Hamiltonians, native gates, load_circuit phase hand-over), device/processor.py (phase appended by
-  run_analytically)          ->  coq/Gen/SpinChain.v
+  (control Hamiltonians, native gates, load_circuit phase hand-over), device/modelprocessor.py (empty compilation
+  result), device/processor.py (phase appended by run_analytically)          ->  coq/Gen/SpinChain.v
 
-Walks the Python `ast` of the CURRENT sources only; emits Coq syntax trees (Found.Sym.ex for real expressions,
-Model.SpinChainTypes.iex/bex for index arithmetic and branch conditions) and evaluates nothing itself.
-Any statement of the translated functions that is not of a recognised shape aborts with
-Broken("translator:<file>:<function>", detail).
+Walks the Python `ast` of the CURRENT sources only and emits Coq syntax trees (Found.Sym.ex for real expressions,
+Model.SpinChainTypes.iex/bex for index arithmetic and branch conditions).
+
+The translated functions are read through a small SYMBOLIC EXECUTOR (`sym_exec`) instead of statement templates, so that
+behaviour-preserving rewrites give the same emitted tree:
+  * local temporaries are resolved through an environment (pure right-hand sides are substituted into their uses;
+    a right-hand side containing a call is bound to a fresh symbol so that sharing / evaluation order is kept);
+  * `if/elif/else` that assign a temporary, early `return`s / `raise`s and guard clauses are all flattened into the
+    same ordered list of PATHS (conjunction of literals -> outcome);
+  * numeric sub-expressions without variables are folded with Python's own float arithmetic and emitted as one reduced
+    rational, so `-1 / 8` and `-0.125` are the same tree.
+Fail-closed: any statement kind, expression or call outside the accepted language, any effect (attribute assignment,
+call statement) that the reader of a function does not expect, aborts with Broken("translator:<file>:<function>", ..).
 """
 import ast
+import copy
 import os
 import sys
 from fractions import Fraction
@@ -21,6 +31,8 @@ F_GC = "compiler/gatecompiler.py"
 F_DEV = "device/spinchain.py"
 F_PROC = "device/processor.py"
 F_MP = "device/modelprocessor.py"
+
+PURE_CALLS = {"min", "max", "str", "abs", "len", "int", "float", "range"}
 
 
 def _parse(rel):
@@ -66,19 +78,183 @@ def qlit(fr):
     return f"({fr.numerator} # {fr.denominator})"
 
 
-# ------------------------------------------------------------------ real expressions -> Found.Sym.ex
+# ================================================================== symbolic execution
+class Path:
+    def __init__(self):
+        self.conds = []      # [(ast expr with the environment substituted, polarity)]
+        self.env = {}        # local name -> ast expr
+        self.events = []     # ("def", sym, expr) | ("set", target text, expr) | ("setitem", base, key, expr) | ("call", expr)
+        self.result = None   # ("return", expr|None) | ("raise", expr|None) | ("end", None)
+
+    def fork(self):
+        p = Path()
+        p.conds = list(self.conds)
+        p.env = dict(self.env)
+        p.events = list(self.events)
+        return p
+
+
+class _Subst(ast.NodeTransformer):
+    def __init__(self, env):
+        self.env = env
+
+    def visit_Name(self, node):
+        if isinstance(node.ctx, ast.Load) and node.id in self.env:
+            return copy.deepcopy(self.env[node.id])
+        return node
+
+
+def _subst(env, node):
+    return _Subst(env).visit(copy.deepcopy(node))
+
+
+def _is_pure(node):
+    for n in ast.walk(node):
+        if isinstance(n, ast.Call):
+            if not (isinstance(n.func, ast.Name) and n.func.id in PURE_CALLS):
+                return False
+        if isinstance(n, (ast.Lambda, ast.Yield, ast.YieldFrom, ast.Await, ast.NamedExpr, ast.ListComp, ast.DictComp,
+                          ast.SetComp, ast.GeneratorExp)):
+            return False
+    return True
+
+
+class SymExec:
+    def __init__(self, where):
+        self.where = where
+        self.defs = {}
+        self.k = 0
+
+    def fresh(self, expr):
+        self.k += 1
+        s = "__sym%d" % self.k
+        self.defs[s] = expr
+        return s
+
+    def bind(self, p, name, rhs):
+        """rhs already substituted"""
+        if _is_pure(rhs):
+            p.env[name] = rhs
+        else:
+            s = self.fresh(rhs)
+            p.events.append(("def", s, rhs))
+            p.env[name] = ast.Name(id=s, ctx=ast.Load())
+
+    def run(self, stmts, p=None):
+        p = p or Path()
+        return self._run(list(stmts), p)
+
+    def _run(self, stmts, p):
+        while stmts:
+            st = stmts.pop(0)
+            if isinstance(st, ast.Pass):
+                continue
+            if isinstance(st, ast.Expr):
+                if isinstance(st.value, ast.Constant):
+                    continue
+                v = _subst(p.env, st.value)
+                if _is_pure(v):
+                    continue
+                p.events.append(("call", v))
+                continue
+            if isinstance(st, ast.AugAssign):
+                load = copy.deepcopy(st.target)
+                for n in ast.walk(load):
+                    if hasattr(n, "ctx"):
+                        n.ctx = ast.Load()
+                st = ast.Assign(targets=[st.target], value=ast.BinOp(left=load, op=st.op, right=st.value))
+            if isinstance(st, ast.Assign):
+                if len(st.targets) != 1:
+                    raise Broken("translator:" + self.where, "chained assignment: " + u(st))
+                tgt = st.targets[0]
+                rhs = _subst(p.env, st.value)
+                if isinstance(tgt, ast.Name):
+                    self.bind(p, tgt.id, rhs)
+                elif isinstance(tgt, (ast.Tuple, ast.List)) and all(isinstance(e, ast.Name) for e in tgt.elts):
+                    if isinstance(rhs, (ast.Tuple, ast.List)) and len(rhs.elts) == len(tgt.elts):
+                        for e, r in zip(tgt.elts, rhs.elts):      # right-hand sides were substituted with the OLD env
+                            self.bind(p, e.id, r)
+                    else:
+                        if _is_pure(rhs):
+                            base = rhs
+                        else:
+                            s = self.fresh(rhs)
+                            p.events.append(("def", s, rhs))
+                            base = ast.Name(id=s, ctx=ast.Load())
+                        for i, e in enumerate(tgt.elts):
+                            p.env[e.id] = ast.Subscript(value=copy.deepcopy(base), slice=ast.Constant(value=i), ctx=ast.Load())
+                elif isinstance(tgt, ast.Attribute):
+                    p.events.append(("set", u(_subst(p.env, tgt)), rhs))
+                elif isinstance(tgt, ast.Subscript):
+                    p.events.append(("setitem", u(_subst(p.env, tgt.value)), _subst(p.env, tgt.slice), rhs))
+                else:
+                    raise Broken("translator:" + self.where, "assignment target not accepted: " + u(st))
+                continue
+            if isinstance(st, ast.If):
+                test = _subst(p.env, st.test)
+                if not _is_pure(test):
+                    raise Broken("translator:" + self.where, "condition with a call: " + u(st.test))
+                pt, pf = p.fork(), p.fork()
+                pt.conds.append((test, True))
+                pf.conds.append((test, False))
+                return self._run(list(st.body) + list(stmts), pt) + self._run(list(st.orelse) + list(stmts), pf)
+            if isinstance(st, ast.Return):
+                p.result = ("return", None if st.value is None else _subst(p.env, st.value))
+                return [p]
+            if isinstance(st, ast.Raise):
+                p.result = ("raise", st.exc)
+                return [p]
+            raise Broken("translator:" + self.where, "statement not accepted: " + type(st).__name__ + ": " + u(st)[:100])
+        p.result = ("end", None)
+        return [p]
+
+    def resolve(self, node):
+        """a symbol standing alone -> its definition"""
+        while isinstance(node, ast.Name) and node.id in self.defs:
+            node = self.defs[node.id]
+        return node
+
+
+def _norm_literals(conds):
+    """[(expr, polarity)] with `not x` unfolded into the polarity"""
+    out = []
+    for c, pol in conds:
+        while isinstance(c, ast.UnaryOp) and isinstance(c.op, ast.Not):
+            c, pol = c.operand, not pol
+        out.append((c, pol))
+    return out
+
+
+# ================================================================== expressions
+def _fold(n):
+    """value of a variable-free numeric expression computed as Python computes it, else None"""
+    if isinstance(n, ast.Constant) and isinstance(n.value, (int, float)) and not isinstance(n.value, bool):
+        return n.value
+    if isinstance(n, ast.UnaryOp) and isinstance(n.op, (ast.USub, ast.UAdd)):
+        v = _fold(n.operand)
+        return None if v is None else (-v if isinstance(n.op, ast.USub) else v)
+    if isinstance(n, ast.BinOp) and isinstance(n.op, (ast.Add, ast.Sub, ast.Mult, ast.Div)):
+        a, b = _fold(n.left), _fold(n.right)
+        if a is None or b is None:
+            return None
+        try:
+            return {ast.Add: lambda: a + b, ast.Sub: lambda: a - b, ast.Mult: lambda: a * b, ast.Div: lambda: a / b}[type(n.op)]()
+        except ZeroDivisionError:
+            return None
+    return None
+
+
 def real_ex(n, where, env):
-    """env: source text -> Coq ex (e.g. 'gate.arg_value' -> 'Var 0')"""
+    """env: source text -> Coq ex (e.g. 'gate.arg_value' -> '(Var 0)')"""
     t = u(n)
     if t in env:
         return env[t]
     if t in ("np.pi", "pi", "numpy.pi", "math.pi"):
         return "Pi"
-    if isinstance(n, ast.Constant) and isinstance(n.value, (int, float)) and not isinstance(n.value, bool):
-        fr = Fraction(n.value)            # exact value of the float literal
-        if fr < 0:
-            return f"(Neg (Num {qlit(-fr)}))"
-        return f"(Num {qlit(fr)})"
+    v = _fold(n)
+    if v is not None:
+        fr = Fraction(v)                  # exact value of the float Python computes
+        return f"(Neg (Num {qlit(-fr)}))" if fr < 0 else f"(Num {qlit(fr)})"
     if isinstance(n, ast.UnaryOp) and isinstance(n.op, ast.USub):
         return f"(Neg {real_ex(n.operand, where, env)})"
     if isinstance(n, ast.UnaryOp) and isinstance(n.op, ast.UAdd):
@@ -91,11 +267,17 @@ def real_ex(n, where, env):
     raise Broken("translator:" + where, "real expression not accepted: " + t)
 
 
-# ------------------------------------------------------------------ index expressions / conditions
-def int_ex(n, where, env):
+# index expressions; after substitution everything is written over gate / self / the loop variable
+INT_ATOMS = {"self.N": "IN", "self.num_qubits": "IN", "num_qubits": "IN",
+             "min(gate.targets)": "IQ1", "max(gate.targets)": "IQ2", "gate.targets[0]": "IT0"}
+
+
+def int_ex(n, where, env=None):
     t = u(n)
-    if t in env:
+    if env and t in env:
         return env[t]
+    if t in INT_ATOMS:
+        return INT_ATOMS[t]
     if isinstance(n, ast.Constant) and isinstance(n.value, int) and not isinstance(n.value, bool):
         return f"(IConst ({n.value})%Z)"
     if isinstance(n, ast.BinOp):
@@ -106,37 +288,114 @@ def int_ex(n, where, env):
     raise Broken("translator:" + where, "index expression not accepted: " + t)
 
 
-def bool_ex(n, where, env):
-    if isinstance(n, ast.BoolOp) and isinstance(n.op, ast.And):
+def bool_ex(n, where, env=None):
+    if isinstance(n, ast.BoolOp):
+        c = "BAnd" if isinstance(n.op, ast.And) else "BOr"
         out = bool_ex(n.values[0], where, env)
         for v in n.values[1:]:
-            out = f"(BAnd {out} {bool_ex(v, where, env)})"
+            out = f"({c} {out} {bool_ex(v, where, env)})"
         return out
+    if isinstance(n, ast.UnaryOp) and isinstance(n.op, ast.Not):
+        return f"(BNot {bool_ex(n.operand, where, env)})"
     if isinstance(n, ast.Compare) and len(n.ops) == 1:
         lhs, rhs = n.left, n.comparators[0]
-        if u(lhs) == "self.setup" and isinstance(n.ops[0], ast.Eq) and isinstance(rhs, ast.Constant) \
-                and isinstance(rhs.value, str):
-            return f"(BSetup {cstr(rhs.value)})"
+        for a, b in ((lhs, rhs), (rhs, lhs)):
+            if u(a) == "self.setup" and isinstance(b, ast.Constant) and isinstance(b.value, str):
+                if isinstance(n.ops[0], ast.Eq):
+                    return f"(BSetup {cstr(b.value)})"
+                if isinstance(n.ops[0], ast.NotEq):
+                    return f"(BNot (BSetup {cstr(b.value)}))"
         c = {ast.Eq: "BEq", ast.NotEq: "BNe"}.get(type(n.ops[0]))
         if c is not None:
             return f"({c} {int_ex(lhs, where, env)} {int_ex(rhs, where, env)})"
     raise Broken("translator:" + where, "condition not accepted: " + u(n))
 
 
-# ------------------------------------------------------------------ compiler
-def _label_expr(n, where, prefix_env, ienv):
-    """<prefix> + str(<index>)  ->  (prefix text, iex)"""
+def literals_ex(conds, where, env=None):
+    """conjunction of the literals of a path"""
+    out = None
+    for c, pol in _norm_literals(conds):
+        b = bool_ex(c, where, env)
+        if not pol:
+            b = f"(BNot {b})"
+        out = b if out is None else f"(BAnd {out} {b})"
+    return out
+
+
+def _label_expr(n, where, prefixes=None, env=None):
+    """<prefix> + str(<index>)  or  f"<prefix>{<index>}"   ->  (prefix text, iex)"""
+    prefixes = prefixes or {}
     if isinstance(n, ast.BinOp) and isinstance(n.op, ast.Add) and isinstance(n.right, ast.Call) \
             and u(n.right.func) == "str" and len(n.right.args) == 1:
         left = n.left
         if isinstance(left, ast.Constant) and isinstance(left.value, str):
             pre = cstr(left.value)
-        elif u(left) in prefix_env:
-            pre = prefix_env[u(left)]
+        elif u(left) in prefixes:
+            pre = prefixes[u(left)]
         else:
             raise Broken("translator:" + where, "label prefix not accepted: " + u(left))
-        return pre, int_ex(n.right.args[0], where, ienv)
+        return pre, int_ex(n.right.args[0], where, env)
+    if isinstance(n, ast.JoinedStr) and len(n.values) == 2 and isinstance(n.values[0], ast.Constant) \
+            and isinstance(n.values[1], ast.FormattedValue) and n.values[1].format_spec is None \
+            and n.values[1].conversion in (-1, 115):
+        return cstr(n.values[0].value), int_ex(n.values[1].value, where, env)
     raise Broken("translator:" + where, "label expression not accepted: " + u(n))
+
+
+# ================================================================== compiler
+def _pulse_call(ex, sym, where):
+    """definition of the symbol: self.generate_pulse_shape(shape, num_samples, maximum, area) -> {maximum, area} asts"""
+    call = ex.resolve(sym)
+    if not (isinstance(call, ast.Call) and u(call.func) in ("self.generate_pulse_shape", "GateCompiler.generate_pulse_shape",
+                                                           "type(self).generate_pulse_shape")):
+        raise Broken("translator:" + where, "pulse is not produced by generate_pulse_shape: " + u(call)[:120])
+    kw = {k.arg: k.value for k in call.keywords}
+    for i, a in enumerate(call.args):
+        kw[["shape", "num_samples", "maximum", "area"][i]] = a
+    if set(kw) != {"shape", "num_samples", "maximum", "area"}:
+        raise Broken("translator:" + where, "generate_pulse_shape arguments: " + u(call))
+    if u(kw["shape"]) != 'args["shape"]' or u(kw["num_samples"]) != 'args["num_samples"]':
+        raise Broken("translator:" + where, "shape / num_samples argument: " + u(call))
+    return kw
+
+
+def _instruction(ex, ret, where):
+    """[Instruction(gate, S[1], [(LABEL, S[0])])]  ->  (symbol S, LABEL ast);  [Instruction(gate, T, [])] -> (None, T)"""
+    ret = ex.resolve(ret)
+    if not (isinstance(ret, ast.List) and len(ret.elts) == 1):
+        raise Broken("translator:" + where, "does not return a one-element instruction list: " + u(ret)[:120])
+    call = ex.resolve(ret.elts[0])
+    if not (isinstance(call, ast.Call) and u(call.func) == "Instruction"):
+        raise Broken("translator:" + where, "returned element is not an Instruction: " + u(call)[:120])
+    kw = {k.arg: k.value for k in call.keywords}
+    for i, a in enumerate(call.args):
+        kw[["gate", "tlist", "pulse_info"][i]] = a
+    if set(kw) != {"gate", "tlist", "pulse_info"} or u(kw["gate"]) != "gate":
+        raise Broken("translator:" + where, "Instruction arguments: " + u(call))
+    info = ex.resolve(kw["pulse_info"])
+    if not isinstance(info, ast.List):
+        raise Broken("translator:" + where, "pulse_info is not a list literal: " + u(info))
+    if not info.elts:
+        return None, kw["tlist"]
+    if len(info.elts) != 1 or not (isinstance(info.elts[0], ast.Tuple) and len(info.elts[0].elts) == 2):
+        raise Broken("translator:" + where, "pulse_info shape: " + u(info))
+    label, coeff = info.elts[0].elts
+    tl = kw["tlist"]
+
+    def comp(e, i):
+        return isinstance(e, ast.Subscript) and isinstance(e.value, ast.Name) and e.value.id in ex.defs \
+            and isinstance(e.slice, ast.Constant) and e.slice.value == i
+    if not (comp(coeff, 0) and comp(tl, 1) and coeff.value.id == tl.value.id):
+        raise Broken("translator:" + where, "coefficient / duration are not the pair returned by one generate_pulse_shape call: "
+                     + u(coeff) + " / " + u(tl))
+    return coeff.value.id, label
+
+
+def _no_effects(p, where, allowed_defs=True):
+    for e in p.events:
+        if e[0] == "def" and allowed_defs:
+            continue
+        raise Broken("translator:" + where, "unexpected side effect: " + e[0] + " " + (e[1] if isinstance(e[1], str) else u(e[1]))[:100])
 
 
 def _tr_rotation(cls):
@@ -144,48 +403,23 @@ def _tr_rotation(cls):
     fn = _fn(cls, F_SC, "_rotation_compiler")
     if [a.arg for a in fn.args.args] != ["self", "gate", "op_label", "param_label", "args"]:
         raise Broken("translator:" + where, "signature changed")
-    out = {}
-    ienv = {}
-    seen = set()
-    for st in _stmts(fn):
-        t = u(st)
-        if t == "targets=gate.targets":
-            ienv["targets[0]"] = "IT0"
-            seen.add("targets")
-        elif isinstance(st, ast.Assign) and u(st.targets[0]) in ("coeff,tlist", "(coeff,tlist)") \
-                and isinstance(st.value, ast.Call) and u(st.value.func) in ("self.generate_pulse_shape",
-                                                                            "GateCompiler.generate_pulse_shape"):
-            call = st.value
-            pos = [u(a) for a in call.args]
-            kw = {k.arg: k.value for k in call.keywords}
-            names = ["shape", "num_samples", "maximum", "area"]
-            for i, a in enumerate(call.args):
-                kw[names[i]] = a
-            if u(kw.get("shape")) != 'args["shape"]' or u(kw.get("num_samples")) != 'args["num_samples"]':
-                raise Broken("translator:" + where, "shape / num_samples argument: " + t)
-            mx = kw.get("maximum")
-            if not (isinstance(mx, ast.Subscript) and u(mx.value) == "self.params[param_label]"):
-                raise Broken("translator:" + where, "maximum is not self.params[param_label][...]: " + t)
-            out["rot_max_index"] = int_ex(mx.slice, where, ienv)
-            out["rot_area"] = real_ex(kw.get("area"), where, {"gate.arg_value": "(Var 0)"})
-            seen.add("pulse")
-        elif isinstance(st, ast.Assign) and u(st.targets[0]) == "pulse_info":
-            v = st.value
-            if not (isinstance(v, ast.List) and len(v.elts) == 1 and isinstance(v.elts[0], ast.Tuple)
-                    and len(v.elts[0].elts) == 2 and u(v.elts[0].elts[1]) == "coeff"):
-                raise Broken("translator:" + where, "pulse_info shape: " + t)
-            pre, idx = _label_expr(v.elts[0].elts[0], where, {"op_label": "OPLABEL"}, ienv)
-            if pre != "OPLABEL":
-                raise Broken("translator:" + where, "label prefix is not op_label: " + t)
-            out["rot_label_index"] = idx
-            seen.add("info")
-        elif t == "return[Instruction(gate,tlist,pulse_info)]":
-            seen.add("ret")
-        else:
-            raise Broken("translator:" + where, "statement not accepted: " + t)
-    if seen != {"targets", "pulse", "info", "ret"}:
-        raise Broken("translator:" + where, "missing statements: %s" % sorted({"targets", "pulse", "info", "ret"} - seen))
-    return out
+    ex = SymExec(where)
+    paths = ex.run(_stmts(fn))
+    if len(paths) != 1 or paths[0].result[0] != "return":
+        raise Broken("translator:" + where, "expected one straight-line path ending in return")
+    _no_effects(paths[0], where)
+    sym, label = _instruction(ex, paths[0].result[1], where)
+    if sym is None:
+        raise Broken("translator:" + where, "no pulse")
+    kw = _pulse_call(ex, ast.Name(id=sym, ctx=ast.Load()), where)
+    mx = kw["maximum"]
+    if not (isinstance(mx, ast.Subscript) and u(mx.value) == "self.params[param_label]"):
+        raise Broken("translator:" + where, "maximum is not self.params[param_label][...]: " + u(mx))
+    pre, idx = _label_expr(label, where, {"op_label": "OPLABEL"})
+    if pre != "OPLABEL":
+        raise Broken("translator:" + where, "label prefix is not op_label: " + u(label))
+    return dict(rot_max_index=int_ex(mx.slice, where), rot_label_index=idx,
+                rot_area=real_ex(kw["area"], where, {"gate.arg_value": "(Var 0)"}))
 
 
 def _tr_swap(cls, stores_setup):
@@ -193,100 +427,92 @@ def _tr_swap(cls, stores_setup):
     fn = _fn(cls, F_SC, "_swap_compiler")
     if [a.arg for a in fn.args.args] != ["self", "gate", "area", "args"]:
         raise Broken("translator:" + where, "signature changed")
-    ienv = {"self.N": "IN", "self.num_qubits": "IN"}
-    seen = set()
-    out = {}
-
-    def branch_result(body):
-        if len(body) == 1 and isinstance(body[0], ast.Assign) and u(body[0].targets[0]) == "pulse_name":
-            pre, idx = _label_expr(body[0].value, where, {}, ienv)
-            return f"(LLabel {pre} {idx})"
-        if len(body) == 1 and isinstance(body[0], ast.Raise):
-            return "LRaise"
-        raise Broken("translator:" + where, "branch body not accepted: " + "; ".join(u(b) for b in body))
-
-    for st in _stmts(fn):
-        t = u(st)
-        if t == "targets=gate.targets":
-            seen.add("targets")
-        elif t in ("q1,q2=(min(targets),max(targets))", "(q1,q2)=(min(targets),max(targets))",
-                   "q1,q2=min(targets),max(targets)"):
-            ienv["q1"] = "IQ1"
-            ienv["q2"] = "IQ2"
-            seen.add("q")
-        elif isinstance(st, ast.Assign) and u(st.targets[0]) == "g" and isinstance(st.value, ast.Subscript) \
-                and u(st.value.value) == 'self.params["sxsy"]':
-            out["swap_max_index"] = int_ex(st.value.slice, where, ienv)
-            seen.add("g")
-        elif t == "maximum=g":
-            seen.add("max")
-        elif isinstance(st, ast.Assign) and u(st.targets[0]) in ("coeff,tlist", "(coeff,tlist)"):
-            if u(st.value) not in ('self.generate_pulse_shape(args["shape"],args["num_samples"],maximum,area)',
-                                   'self.generate_pulse_shape(args["shape"],args["num_samples"],maximum=maximum,area=area)'):
-                raise Broken("translator:" + where, "generate_pulse_shape call: " + t)
-            if not {"g", "max"} <= seen:
-                raise Broken("translator:" + where, "pulse generated before maximum is set")
-            seen.add("pulse")
-        elif isinstance(st, ast.If):
-            branches = []
-            cur = st
-            while True:
-                cond = bool_ex(cur.test, where, ienv)
-                if "BSetup" in cond and not stores_setup:
-                    raise Broken("translator:" + where, "self.setup is read but never stored by __init__")
-                branches.append(f"({cond}, {branch_result(cur.body)})")
-                if len(cur.orelse) == 1 and isinstance(cur.orelse[0], ast.If):
-                    cur = cur.orelse[0]
-                    continue
-                if not cur.orelse:
-                    raise Broken("translator:" + where, "label choice without else branch")
-                out["swap_else"] = branch_result(cur.orelse)
-                break
-            out["swap_branches"] = "[" + "; ".join(branches) + "]"
-            seen.add("rule")
-        elif t == "pulse_info=[(pulse_name,coeff)]":
-            if "rule" not in seen:
-                raise Broken("translator:" + where, "pulse_info before the label choice")
-            seen.add("info")
-        elif t == "return[Instruction(gate,tlist,pulse_info)]":
-            seen.add("ret")
+    ex = SymExec(where)
+    paths = ex.run(_stmts(fn))
+    branches = []
+    maxidx = None
+    for p in paths:
+        _no_effects(p, where)
+        cond = literals_ex(p.conds, where)
+        if cond is not None and "BSetup" in cond and not stores_setup:
+            raise Broken("translator:" + where, "self.setup is read but never stored by __init__")
+        if p.result[0] == "raise":
+            res = "LRaise"
+        elif p.result[0] == "return":
+            sym, label = _instruction(ex, p.result[1], where)
+            if sym is None:
+                raise Broken("translator:" + where, "a path returns an instruction without pulse")
+            kw = _pulse_call(ex, ast.Name(id=sym, ctx=ast.Load()), where)
+            if u(kw["area"]) != "area":
+                raise Broken("translator:" + where, "area argument is not the parameter `area`: " + u(kw["area"]))
+            mx = kw["maximum"]
+            if not (isinstance(mx, ast.Subscript) and u(mx.value) == 'self.params["sxsy"]'):
+                raise Broken("translator:" + where, 'maximum is not self.params["sxsy"][...]: ' + u(mx))
+            mi = int_ex(mx.slice, where)
+            if maxidx not in (None, mi):
+                raise Broken("translator:" + where, "the strength index differs between the branches")
+            maxidx = mi
+            pre, idx = _label_expr(label, where)
+            res = f"(LLabel {pre} {idx})"
         else:
-            raise Broken("translator:" + where, "statement not accepted: " + t)
-    need = {"targets", "q", "g", "max", "pulse", "rule", "info", "ret"}
-    if seen != need:
-        raise Broken("translator:" + where, "missing statements: %s" % sorted(need - seen))
-    return out
+            raise Broken("translator:" + where, "a path ends without return")
+        branches.append((cond, res))
+    if maxidx is None:
+        raise Broken("translator:" + where, "no path produces a pulse")
+    if len(branches) == 1:
+        return dict(swap_max_index=maxidx, swap_branches="[]", swap_else=branches[0][1])
+    # the paths partition the inputs; as an ordered decision list only the literals that are not implied by the failure
+    # of the earlier branches are needed, but keeping all of them is equivalent
+    return dict(swap_max_index=maxidx,
+                swap_branches="[" + "; ".join(f"({c}, {r})" for c, r in branches[:-1]) + "]",
+                swap_else=branches[-1][1])
 
 
 def _method_body(fn, where):
     """classify one gate-compiler method"""
-    st = _stmts(fn)
-    if len(st) == 1 and isinstance(st[0], ast.Pass):
-        return "MNothing"
-    if len(st) == 1 and isinstance(st[0], ast.AugAssign) and u(st[0]) == "self.global_phase+=gate.arg_value":
-        return "MPhase"
-    if len(st) == 1 and isinstance(st[0], ast.Return) and isinstance(st[0].value, ast.Call):
-        call = st[0].value
-        f = u(call.func)
+    ex = SymExec(where)
+    paths = ex.run(_stmts(fn))
+    if len(paths) != 1:
+        raise Broken("translator:" + where, "gate compiler with branches is not accepted")
+    p = paths[0]
+    sets = [e for e in p.events if e[0] != "def"]
+    ret = None if p.result[0] == "end" or p.result[1] is None else ex.resolve(p.result[1])
+    if p.result[0] == "raise":
+        raise Broken("translator:" + where, "gate compiler raises")
+    if ret is None or (isinstance(ret, ast.Constant) and ret.value is None):
+        if not sets:
+            return "MNothing"
+        if len(sets) == 1 and sets[0][0] == "set" and sets[0][1] == "self.global_phase" \
+                and u(sets[0][2]) in ("self.global_phase+gate.arg_value", "gate.arg_value+self.global_phase"):
+            return "MPhase"
+        raise Broken("translator:" + where, "effects not accepted: " + "; ".join(e[0] + ":" + str(e[1])[:40] for e in sets))
+    if sets:
+        raise Broken("translator:" + where, "gate compiler with a result and side effects")
+    if isinstance(ret, ast.Call):
+        f = u(ret.func)
         if f == "self._rotation_compiler":
-            a = call.args
-            if len(a) == 4 and u(a[0]) == "gate" and u(a[3]) == "args" and not call.keywords \
-                    and all(isinstance(x, ast.Constant) and isinstance(x.value, str) for x in a[1:3]):
-                return f"(MRot {cstr(a[1].value)} {cstr(a[2].value)})"
+            kw = {k.arg: k.value for k in ret.keywords}
+            for i, a in enumerate(ret.args):
+                kw[["gate", "op_label", "param_label", "args"][i]] = a
+            if set(kw) == {"gate", "op_label", "param_label", "args"} and u(kw["gate"]) == "gate" and u(kw["args"]) == "args" \
+                    and all(isinstance(kw[x], ast.Constant) and isinstance(kw[x].value, str) for x in ("op_label", "param_label")):
+                return f"(MRot {cstr(kw['op_label'].value)} {cstr(kw['param_label'].value)})"
         if f == "self._swap_compiler":
-            kw = {k.arg: k.value for k in call.keywords}
-            for i, a in enumerate(call.args):
+            kw = {k.arg: k.value for k in ret.keywords}
+            for i, a in enumerate(ret.args):
                 kw[["gate", "area", "args"][i]] = a
             if set(kw) == {"gate", "area", "args"} and u(kw["gate"]) == "gate" and u(kw["args"]) == "args":
                 return f"(MSwap {real_ex(kw['area'], where, {})})"
-    if len(st) == 2 and u(st[0]) == "idle_time=gate.arg_value" and u(st[1]) == "return[Instruction(gate,idle_time,[])]":
+        raise Broken("translator:" + where, "gate compiler call not accepted: " + u(ret)[:120])
+    sym, tl = _instruction(ex, ret, where)
+    if sym is None and u(tl) == "gate.arg_value":
         return "MIdle"
-    raise Broken("translator:" + where, "gate compiler body not accepted: " + "; ".join(u(s) for s in st))
+    raise Broken("translator:" + where, "gate compiler body not accepted: " + u(ret)[:120])
 
 
-def _dict_of_methods(node, where):
+def _methods_of_dict(node, where):
     if not isinstance(node, ast.Dict):
-        raise Broken("translator:" + where, "gate_compiler table is not a dict literal")
+        raise Broken("translator:" + where, "gate_compiler table is not a dict literal: " + u(node)[:80])
     out = []
     for k, v in zip(node.keys, node.values):
         if not (isinstance(k, ast.Constant) and isinstance(k.value, str) and isinstance(v, ast.Attribute)
@@ -296,37 +522,70 @@ def _dict_of_methods(node, where):
     return out
 
 
+def _table_events(ex, p, where):
+    """gate_compiler entries written by one constructor path, in order"""
+    out = []
+    for e in p.events:
+        if e[0] == "set" and e[1] == "self.gate_compiler":
+            out = _methods_of_dict(ex.resolve(e[2]), where)            # a fresh table
+        elif e[0] == "call" and isinstance(e[1], ast.Call) and u(e[1].func) == "self.gate_compiler.update" \
+                and len(e[1].args) == 1 and not e[1].keywords:
+            out += _methods_of_dict(ex.resolve(e[1].args[0]), where)
+        elif e[0] == "setitem" and e[1] == "self.gate_compiler":
+            out += _methods_of_dict(ast.Dict(keys=[e[2]], values=[e[3]]), where)
+    return out
+
+
 def _tr_compiler():
     sc = _cls(_parse(F_SC), F_SC, "SpinChainCompiler")
     gc = _cls(_parse(F_GC), F_GC, "GateCompiler")
     if [u(b) for b in sc.bases] != ["GateCompiler"]:
         raise Broken("translator:" + F_SC, "SpinChainCompiler base classes changed")
-    # base table
+    # base table: GateCompiler.__init__ is only searched for writes to self.gate_compiler (its other statements are
+    # not about this property); the warning branch on pulse_dict does not touch the table
+    where = F_GC + ":GateCompiler.__init__"
     base = None
     for st in ast.walk(_fn(gc, F_GC, "__init__")):
-        if isinstance(st, ast.Assign) and u(st.targets[0]) == "self.gate_compiler" and isinstance(st.value, ast.Dict) \
-                and st.value.keys:
-            base = _dict_of_methods(st.value, F_GC + ":__init__")
-    if base is None:
-        raise Broken("translator:" + F_GC + ":__init__", "default gate_compiler table not found")
-    upd = None
+        if isinstance(st, ast.Assign) and len(st.targets) == 1 and u(st.targets[0]) == "self.gate_compiler":
+            if isinstance(st.value, ast.Dict):
+                base = _methods_of_dict(st.value, where)
+            else:
+                raise Broken("translator:" + where, "gate_compiler is not a dict literal")
+        elif isinstance(st, (ast.Assign, ast.AugAssign)) and "self.gate_compiler" in u(st.targets[0] if isinstance(st, ast.Assign) else st.target):
+            raise Broken("translator:" + where, "unrecognised write to gate_compiler: " + u(st)[:100])
+    if not base:
+        raise Broken("translator:" + where, "default gate_compiler table not found")
+    # SpinChainCompiler.__init__
+    where = F_SC + ":SpinChainCompiler.__init__"
+    ex = SymExec(where)
+    paths = ex.run(_stmts(_fn(sc, F_SC, "__init__")))
+    if len(paths) != 1:
+        raise Broken("translator:" + where, "constructor with branches is not accepted")
+    p = paths[0]
     stores_setup = False
-    init = _fn(sc, F_SC, "__init__")
-    for st in _stmts(init):
-        t = u(st)
-        if isinstance(st, ast.Expr) and isinstance(st.value, ast.Call) and u(st.value.func) == "self.gate_compiler.update":
-            upd = _dict_of_methods(st.value.args[0], F_SC + ":__init__")
-        elif t == "self.setup=setup":
+    sup = False
+    for e in p.events:
+        if e[0] == "set" and e[1] == "self.setup":
+            if u(e[2]) != "setup":
+                raise Broken("translator:" + where, "self.setup is not the constructor argument")
             stores_setup = True
-        elif t == "self.global_phase=global_phase":
-            pass
-        elif isinstance(st, ast.Expr) and isinstance(st.value, ast.Call) and u(st.value.func).startswith("super("):
-            if u(st.value) != "super(SpinChainCompiler,self).__init__(num_qubits,params=params,pulse_dict=pulse_dict,N=N)":
-                raise Broken("translator:" + F_SC + ":__init__", "super().__init__ call: " + t)
+        elif e[0] == "set" and e[1] == "self.global_phase":
+            if u(e[2]) != "global_phase":
+                raise Broken("translator:" + where, "self.global_phase is not the constructor argument")
+        elif e[0] in ("call", "def") and isinstance(ex.resolve(e[-1]), ast.Call) and u(ex.resolve(e[-1]).func).startswith("super("):
+            c = ex.resolve(e[-1])
+            if u(c.func) not in ("super(SpinChainCompiler,self).__init__", "super().__init__") or \
+                    sorted(u(a) for a in c.args) + sorted(u(k) for k in c.keywords) != ["num_qubits", "N=N", "params=params", "pulse_dict=pulse_dict"]:
+                raise Broken("translator:" + where, "super().__init__ call: " + u(c))
+            sup = True
+        elif (e[0] == "call" and u(e[1].func) == "self.gate_compiler.update") or (e[0] == "setitem" and e[1] == "self.gate_compiler"):
+            if not sup:
+                raise Broken("translator:" + where, "gate_compiler written before super().__init__ (would be overwritten)")
         else:
-            raise Broken("translator:" + F_SC + ":__init__", "statement not accepted: " + t)
-    if upd is None:
-        raise Broken("translator:" + F_SC + ":__init__", "gate_compiler.update not found")
+            raise Broken("translator:" + where, "statement not accepted: " + e[0] + " " + str(e[1])[:60])
+    upd = _table_events(ex, p, where)
+    if not upd or not sup:
+        raise Broken("translator:" + where, "gate_compiler entries / super().__init__ not found")
     table = dict(base)
     table.update(dict(upd))
     methods = []
@@ -344,12 +603,31 @@ def _tr_compiler():
     return out
 
 
-# ------------------------------------------------------------------ device model
-def _ham(n, where):
-    """2 * np.pi * sigmax()  /  2 * np.pi * operator   ->  (scale ex, operator text)"""
-    if isinstance(n, ast.BinOp) and isinstance(n.op, ast.Mult):
-        return real_ex(n.left, where, {}), u(n.right)
-    raise Broken("translator:" + where, "control Hamiltonian not accepted: " + u(n))
+# ================================================================== device model
+def _ham(n, where, env):
+    """2 * np.pi * sigmax()  /  sigmax() * 2 * np.pi   ->  (scale ex, operator text); the operator is the only call"""
+    n = _subst(env, n)
+    factors = []
+
+    def flat(x):
+        if isinstance(x, ast.BinOp) and isinstance(x.op, ast.Mult):
+            flat(x.left)
+            flat(x.right)
+        else:
+            factors.append(x)
+    flat(n)
+    ops = [f for f in factors if not _is_pure(f)]
+    nums = [f for f in factors if _is_pure(f)]
+    if len(ops) != 1 or not nums:
+        raise Broken("translator:" + where, "control Hamiltonian not accepted: " + u(n))
+    scale = nums[0]
+    for f in nums[1:]:
+        scale = ast.BinOp(left=scale, op=ast.Mult(), right=f)
+    return real_ex(scale, where, {}), u(ops[0])
+
+
+XXYY = ("tensor([sigmax(),sigmax()])+tensor([sigmay(),sigmay()])", "tensor(sigmax(),sigmax())+tensor(sigmay(),sigmay())",
+        "tensor([sigmay(),sigmay()])+tensor([sigmax(),sigmax()])", "tensor(sigmay(),sigmay())+tensor(sigmax(),sigmax())")
 
 
 def _tr_model():
@@ -358,30 +636,27 @@ def _tr_model():
     where = F_DEV + ":SpinChainModel._set_up_controls"
     fn = _fn(m, F_DEV, "_set_up_controls")
     fams = []
-    operator_def = None
-    seen_nc = False
+    env = {}          # temporaries bound to expressions (operator = ..., num_coupling = self._get_num_coupling())
     for st in _stmts(fn):
         t = u(st)
-        if t == "controls={}" or t == "returncontrols":
+        if t in ("controls={}", "controls=dict()", "returncontrols"):
             continue
-        if t == "num_coupling=self._get_num_coupling()":
-            seen_nc = True
+        if isinstance(st, ast.Assign) and len(st.targets) == 1 and isinstance(st.targets[0], ast.Name) \
+                and st.targets[0].id != "controls":
+            env[st.targets[0].id] = _subst(env, st.value)
             continue
-        if isinstance(st, ast.If) and u(st.test) == "num_coupling==0" and [u(b) for b in st.body] == ["returncontrols"] \
-                and not st.orelse:
-            continue
-        if isinstance(st, ast.Assign) and u(st.targets[0]) == "operator":
-            if t != "operator=tensor([sigmax(),sigmax()])+tensor([sigmay(),sigmay()])":
-                raise Broken("translator:" + where, "exchange operator not accepted: " + t)
-            operator_def = "HXY"
-            continue
+        if isinstance(st, ast.If) and not st.orelse and [u(b) for b in st.body] == ["returncontrols"] \
+                and u(_subst(env, st.test)) in ("self._get_num_coupling()==0", "notself._get_num_coupling()",
+                                                "self._get_num_coupling()<=0", "self._get_num_coupling()<1"):
+            continue                      # no coupling: the loop below would not run anyway
         if isinstance(st, ast.For) and isinstance(st.iter, ast.Call) and u(st.iter.func) == "range" \
-                and len(st.iter.args) == 1 and len(st.body) == 1 and isinstance(st.body[0], ast.Assign) and not st.orelse:
-            var = u(st.target)
-            cnt = u(st.iter.args[0])
-            if cnt == "num_qubits":
+                and len(st.iter.args) == 1 and len(st.body) == 1 and isinstance(st.body[0], ast.Assign) and not st.orelse \
+                and isinstance(st.target, ast.Name):
+            var = st.target.id
+            cnt = u(_subst(env, st.iter.args[0]))
+            if cnt in ("num_qubits", "self.num_qubits"):
                 count = "IN"
-            elif cnt == "num_coupling" and seen_nc:
+            elif cnt == "self._get_num_coupling()":
                 count = "INumCoupling"
             else:
                 raise Broken("translator:" + where, "loop bound not accepted: " + cnt)
@@ -389,52 +664,51 @@ def _tr_model():
             tgt = a.targets[0]
             if not (isinstance(tgt, ast.Subscript) and u(tgt.value) == "controls"):
                 raise Broken("translator:" + where, "loop body not accepted: " + u(a))
-            ienv = {var: "ILoop", "num_qubits": "IN"}
-            pre, idx = _label_expr(tgt.slice, where, {}, ienv)
+            ienv = {var: "ILoop"}
+            pre, idx = _label_expr(_subst(env, tgt.slice), where, None, ienv)
             if idx != "ILoop":
                 raise Broken("translator:" + where, "label index is not the loop variable: " + u(a))
-            if not (isinstance(a.value, ast.Tuple) and len(a.value.elts) == 2):
+            val = _subst(env, a.value)
+            if not (isinstance(val, ast.Tuple) and len(val.elts) == 2):
                 raise Broken("translator:" + where, "control entry not a pair: " + u(a))
-            scale, op = _ham(a.value.elts[0], where)
+            scale, op = _ham(val.elts[0], where, env)
             if op == "sigmax()":
                 kind = "HX"
             elif op == "sigmaz()":
                 kind = "HZ"
-            elif op == "operator" and operator_def:
-                kind = operator_def
+            elif op in XXYY or op.strip("()") in XXYY or op in tuple("(" + x + ")" for x in XXYY):
+                kind = "HXY"
             else:
                 raise Broken("translator:" + where, "operator not accepted: " + op)
-            te = a.value.elts[1]
-            if isinstance(te, ast.List):
-                tgts = [int_ex(e, where, ienv) for e in te.elts]
-            else:
-                tgts = [int_ex(te, where, ienv)]
+            te = val.elts[1]
+            tgts = [int_ex(e, where, ienv) for e in te.elts] if isinstance(te, (ast.List, ast.Tuple)) else [int_ex(te, where, ienv)]
             fams.append(f"mkCF {pre} {kind} {scale} {count} [" + "; ".join(tgts) + "]")
             continue
-        raise Broken("translator:" + where, "statement not accepted: " + t)
+        raise Broken("translator:" + where, "statement not accepted: " + t[:120])
     if len(fams) != 3:
         raise Broken("translator:" + where, "expected three control families, found %d" % len(fams))
-    # _get_num_coupling
+    # _get_num_coupling: flattened into paths; every path but the last tests self.setup == <const> and returns a count
     where = F_DEV + ":SpinChainModel._get_num_coupling"
-    fn = _fn(m, F_DEV, "_get_num_coupling")
+    ex = SymExec(where)
+    paths = ex.run(_stmts(_fn(m, F_DEV, "_get_num_coupling")))
     nc = []
-    st = _stmts(fn)
-    if not (len(st) == 2 and isinstance(st[0], ast.If) and u(st[1]) == "returnnum_coupling"):
-        raise Broken("translator:" + where, "shape changed")
-    cur = st[0]
-    while True:
-        c = cur.test
-        if not (isinstance(c, ast.Compare) and u(c.left) == "self.setup" and isinstance(c.ops[0], ast.Eq)
-                and isinstance(c.comparators[0], ast.Constant) and len(cur.body) == 1
-                and isinstance(cur.body[0], ast.Assign) and u(cur.body[0].targets[0]) == "num_coupling"):
-            raise Broken("translator:" + where, "branch not accepted: " + u(cur.test))
-        nc.append(f"({cstr(c.comparators[0].value)}, {int_ex(cur.body[0].value, where, {'self.num_qubits': 'IN'})})")
-        if len(cur.orelse) == 1 and isinstance(cur.orelse[0], ast.If):
-            cur = cur.orelse[0]
-            continue
-        if not (len(cur.orelse) == 1 and isinstance(cur.orelse[0], ast.Raise)):
-            raise Broken("translator:" + where, "else branch is not a raise")
-        break
+    for i, p in enumerate(paths):
+        _no_effects(p, where)
+        lits = _norm_literals(p.conds)
+        pos = [c for c, pol in lits if pol]
+        if i < len(paths) - 1:
+            if not (len(pos) == 1 and [pol for _, pol in lits] == [False] * (len(lits) - 1) + [True] and p.result[0] == "return"):
+                raise Broken("translator:" + where, "branch shape not accepted")
+            c = pos[0]
+            if not (isinstance(c, ast.Compare) and len(c.ops) == 1 and isinstance(c.ops[0], ast.Eq) and u(c.left) == "self.setup"
+                    and isinstance(c.comparators[0], ast.Constant) and isinstance(c.comparators[0].value, str)):
+                raise Broken("translator:" + where, "condition not accepted: " + u(c))
+            nc.append(f"({cstr(c.comparators[0].value)}, {int_ex(ex.resolve(p.result[1]), where)})")
+        else:
+            if pos or p.result[0] != "raise":
+                raise Broken("translator:" + where, "the remaining case does not raise")
+    if not nc:
+        raise Broken("translator:" + where, "no setup recognised")
     # default parameters
     where = F_DEV + ":SpinChainModel.__init__"
     defaults = None
@@ -447,52 +721,79 @@ def _tr_model():
     sc = _cls(tree, F_DEV, "SpinChain")
     native = None
     for n in ast.walk(_fn(sc, F_DEV, "__init__")):
-        if isinstance(n, ast.Assign) and u(n.targets[0]) == "self.native_gates" and isinstance(n.value, ast.List):
+        if isinstance(n, ast.Assign) and u(n.targets[0]) == "self.native_gates" and isinstance(n.value, (ast.List, ast.Tuple)):
             native = [e.value for e in n.value.elts]
     if native is None:
         raise Broken("translator:" + F_DEV + ":SpinChain.__init__", "native_gates not found")
     where = F_DEV + ":SpinChain.load_circuit"
-    fn = _fn(sc, F_DEV, "load_circuit")
-    fresh = reports = loads = False
-    for st in _stmts(fn):
-        t = u(st)
-        if isinstance(st, ast.If) and u(st.test) == "compilerisNone" and len(st.body) == 1 and not st.orelse \
-                and u(st.body[0]) == "compiler=SpinChainCompiler(self.num_qubits,self.params,setup=setup)":
-            fresh = True
-        elif t == "tlist,coeffs=super().load_circuit(qc,schedule_mode=schedule_mode,compiler=compiler)":
-            if reports:
-                raise Broken("translator:" + where, "phase read before compilation")
-            loads = True
-        elif t == "self.global_phase=compiler.global_phase":
-            reports = loads
-        elif t == "returntlist,coeffs" or t == "return(tlist,coeffs)":
-            pass
-        else:
-            raise Broken("translator:" + where, "statement not accepted: " + t)
+    ex = SymExec(where)
+    paths = ex.run(_stmts(_fn(sc, F_DEV, "load_circuit")))
+    fresh = False
+    for p in paths:
+        lits = _norm_literals(p.conds)
+        if [u(c) for c, _ in lits] != ["compilerisNone"]:
+            raise Broken("translator:" + where, "branching other than on `compiler is None`: " + ", ".join(u(c) for c, _ in lits))
+        none = lits[0][1]
+        loaded = None
+        reported = False
+        for e in p.events:
+            val = ex.resolve(e[-1]) if e[0] in ("def", "call") else None
+            if val is not None and isinstance(val, ast.Call) and u(val.func) in ("super().load_circuit", "super(SpinChain,self).load_circuit"):
+                kw = {k.arg: k.value for k in val.keywords}
+                for i, a in enumerate(val.args):
+                    kw[["qc", "schedule_mode", "compiler"][i]] = a
+                if set(kw) != {"qc", "schedule_mode", "compiler"} or u(kw["qc"]) != "qc" or u(kw["schedule_mode"]) != "schedule_mode":
+                    raise Broken("translator:" + where, "super().load_circuit arguments: " + u(val))
+                loaded = kw["compiler"]
+            elif e[0] == "def" and isinstance(val, ast.Call) and u(val.func) == "SpinChainCompiler":
+                if not none or u(val) != "SpinChainCompiler(self.num_qubits,self.params,setup=setup)":
+                    raise Broken("translator:" + where, "compiler construction: " + u(val))
+            elif e[0] == "set" and e[1] == "self.global_phase":
+                if loaded is None or u(e[2]) != u(loaded) + ".global_phase":
+                    raise Broken("translator:" + where, "global_phase is not read from the compiler used, after compiling")
+                reported = True
+            else:
+                raise Broken("translator:" + where, "statement not accepted: " + e[0] + " " + str(e[1])[:60])
+        if loaded is None or not reported or p.result[0] != "return":
+            raise Broken("translator:" + where, "a path does not compile and report the phase")
+        if none:
+            c = ex.resolve(loaded)
+            fresh = isinstance(c, ast.Call) and u(c.func) == "SpinChainCompiler"
+            if not fresh:
+                raise Broken("translator:" + where, "no compiler is constructed when none is given")
+        elif u(loaded) != "compiler":
+            raise Broken("translator:" + where, "the given compiler is not the one used")
+    if len(paths) != 2:
+        raise Broken("translator:" + where, "expected the two cases compiler given / not given")
     setups = []
     for cname in ("LinearSpinChain", "CircularSpinChain"):
         c = _cls(tree, F_DEV, cname)
-        fn = _fn(c, F_DEV, "load_circuit")
-        st = _stmts(fn)
-        ok = len(st) == 1 and isinstance(st[0], ast.Return) and isinstance(st[0].value, ast.Call) \
-            and len(st[0].value.args) == 2 and u(st[0].value.args[0]) == "qc" \
-            and isinstance(st[0].value.args[1], ast.Constant) \
-            and u(st[0].value.func) == f"super({cname},self).load_circuit" \
-            and sorted(u(k) for k in st[0].value.keywords) == ["compiler=compiler", "schedule_mode=schedule_mode"]
+        w2 = f"{F_DEV}:{cname}.load_circuit"
+        ex = SymExec(w2)
+        paths = ex.run(_stmts(_fn(c, F_DEV, "load_circuit")))
+        if len(paths) != 1 or paths[0].result[0] != "return" or [e for e in paths[0].events if e[0] != "def"]:
+            raise Broken("translator:" + w2, "shape changed")
+        call = ex.resolve(paths[0].result[1])
+        ok = isinstance(call, ast.Call) and u(call.func) in (f"super({cname},self).load_circuit", "super().load_circuit")
+        if ok:
+            kw = {k.arg: k.value for k in call.keywords}
+            for i, a in enumerate(call.args):
+                kw[["qc", "setup", "schedule_mode", "compiler"][i]] = a
+            ok = set(kw) == {"qc", "setup", "schedule_mode", "compiler"} and u(kw["qc"]) == "qc" \
+                and u(kw["schedule_mode"]) == "schedule_mode" and u(kw["compiler"]) == "compiler" \
+                and isinstance(kw["setup"], ast.Constant) and isinstance(kw["setup"].value, str)
         if not ok:
-            raise Broken(f"translator:{F_DEV}:{cname}.load_circuit", "shape changed")
-        setup = st[0].value.args[1].value
-        # the model of the same class must be built with the same setup
+            raise Broken("translator:" + w2, "shape changed")
+        setup = kw["setup"].value
         found = False
         for n in ast.walk(_fn(c, F_DEV, "__init__")):
             if isinstance(n, ast.Call) and u(n.func) == "SpinChainModel":
-                kw = {k.arg: u(k.value) for k in n.keywords}
-                found = kw.get("setup") == '"%s"' % setup
+                k2 = {k.arg: u(k.value) for k in n.keywords}
+                found = k2.get("setup") == '"%s"' % setup
         if not found:
             raise Broken(f"translator:{F_DEV}:{cname}.__init__", "model setup differs from the compiler setup")
         setups.append((cname, setup))
-    return dict(families=fams, num_coupling=nc, defaults=defaults, native=native, fresh=fresh, reports=reports,
-                setups=setups)
+    return dict(families=fams, num_coupling=nc, defaults=defaults, native=native, fresh=fresh, reports=True, setups=setups)
 
 
 def _tr_processor():
@@ -500,16 +801,22 @@ def _tr_processor():
     fn = _fn(_cls(_parse(F_PROC), F_PROC, "Processor"), F_PROC, "run_analytically")
     appended = False
     for n in ast.walk(fn):
-        if isinstance(n, ast.If) and u(n.test) == "self.correct_global_phaseandself.global_phase!=0" \
-                and len(n.body) == 1 and u(n.body[0]) == "U_list.append(globalphase(self.global_phase,N=self.num_qubits))":
+        if isinstance(n, ast.If) and u(n.test) in ("self.correct_global_phaseandself.global_phase!=0",
+                                                   "self.global_phase!=0andself.correct_global_phase") \
+                and len(n.body) == 1 and u(n.body[0]) in ("U_list.append(globalphase(self.global_phase,N=self.num_qubits))",
+                                                          "U_list+=[globalphase(self.global_phase,N=self.num_qubits)]"):
             appended = True
     slice_ok = False
     for n in ast.walk(fn):
-        if isinstance(n, ast.Assign) and u(n) == "U=(-1j*H*dt).expm()":
+        if isinstance(n, ast.Assign) and u(n) in ("U=(-1j*H*dt).expm()", "U=(-1j*dt*H).expm()", "U=(-1j*(H*dt)).expm()"):
             slice_ok = True
     if not slice_ok:
         raise Broken("translator:" + where, "slice propagator is not (-1j*H*dt).expm()")
     return dict(appends_phase=appended)
+
+
+EMPTY_TABLES = ("tlist,coeffs=({},{})", "(tlist,coeffs)=({},{})", "tlist,coeffs={},{}", "coeffs,tlist=({},{})",
+                "coeffs,tlist={},{}", "tlist,coeffs=(dict(),dict())", "tlist=coeffs={}")
 
 
 def _tr_modelprocessor():
@@ -526,9 +833,11 @@ def _tr_modelprocessor():
     accepts = False
     for i, x in enumerate(st):
         if isinstance(x, ast.If) and ("coeffsisNone" in u(x.test) or "tlistisNone" in u(x.test)):
+            body = [u(b) for b in x.body]
             ok = (u(x.test) in ("tlistisNoneandcoeffsisNone", "coeffsisNoneandtlistisNone", "coeffsisNone")
-                  and len(x.body) == 1 and not x.orelse
-                  and u(x.body[0]) in ("tlist,coeffs=({},{})", "(tlist,coeffs)=({},{})", "tlist,coeffs={},{}"))
+                  and not x.orelse
+                  and (len(body) == 1 and body[0] in EMPTY_TABLES
+                       or sorted(body) in (["coeffs={}", "tlist={}"], ["coeffs=dict()", "tlist=dict()"])))
             if not ok or i > k:
                 raise Broken("translator:" + where, "unrecognised handling of an empty compilation result: " + u(x)[:120])
             accepts = True
@@ -538,6 +847,11 @@ def _tr_modelprocessor():
     body = _stmts(fn)
     for i, x in enumerate(body):
         if isinstance(x, ast.If) and u(x.test) == "tlistisNone" and len(x.body) == 1 and u(x.body[0]) == "tlist=[]" \
+                and not x.orelse and i > 0 and u(body[i - 1]) == "tlist=self.get_full_tlist()":
+            runs_empty = True
+        if isinstance(x, ast.Assign) and u(x) in ("tlist=self.get_full_tlist()or[]",):
+            runs_empty = True
+        if isinstance(x, ast.Assign) and u(x) in ("tlist=[]iftlistisNoneelsetlist", "tlist=tlistiftlistisnotNoneelse[]") \
                 and i > 0 and u(body[i - 1]) == "tlist=self.get_full_tlist()":
             runs_empty = True
     return dict(accepts_empty=accepts, runs_empty=runs_empty)
@@ -551,7 +865,7 @@ def generate():
     b = lambda x: "true" if x else "false"  # noqa: E731
     lines = [
         "(* GENERATED by tools/translate/spinchain_tr.py from compiler/spinchaincompiler.py, compiler/gatecompiler.py,",
-        "   device/spinchain.py, device/processor.py -- do not edit *)",
+        "   device/spinchain.py, device/modelprocessor.py, device/processor.py -- do not edit *)",
         "From Coq Require Import ZArith QArith String List.",
         "From QV Require Import Found.Sym Model.SpinChainTypes.",
         "Import ListNotations.",
@@ -563,7 +877,7 @@ def generate():
         f"Definition rot_area : ex := {comp['rot_area']}.",
         f"Definition rot_max_index : iex := {comp['rot_max_index']}.",
         f"Definition rot_label_index : iex := {comp['rot_label_index']}.",
-        "(* _swap_compiler: strength index and the label choice *)",
+        "(* _swap_compiler: strength index and the label choice (ordered decision list over the execution paths) *)",
         f"Definition swap_max_index : iex := {comp['swap_max_index']}.",
         f"Definition swap_branches : list (bex * lres) := {comp['swap_branches']}.",
         f"Definition swap_else : lres := {comp['swap_else']}.",
